@@ -3,6 +3,7 @@ mod desc;
 mod exec;
 mod gen;
 mod obs;
+mod oracle;
 mod props;
 mod render;
 mod scriptref;
